@@ -37,8 +37,9 @@ type targetPanic struct {
 }
 
 type fnInfo struct {
-	idx map[ssa.Value]int
-	n   int
+	idx  map[ssa.Value]int
+	n    int
+	free []*frame // recycled frames (registers are not cleared: SSA defines before use)
 }
 
 type methodKey struct {
@@ -68,7 +69,8 @@ type frame struct {
 	deferredCall bool // this frame runs a deferred function
 	bestEffort   bool
 	depth    int
-	loops    map[*ssa.BasicBlock]int
+	loops    []int32
+	loopsDirty bool
 	cur      ssa.Instruction
 }
 
@@ -369,16 +371,32 @@ func (in *Interp) callSSA(caller *frame, site ssa.Instruction, fn *ssa.Function,
 	return in.runSSA(caller, site, fn, args, env, false)
 }
 
+func (in *Interp) newFrame(fi *fnInfo) *frame {
+	if n := len(fi.free); n > 0 {
+		fr := fi.free[n-1]
+		fi.free = fi.free[:n-1]
+		regs, loops, dirty := fr.regs, fr.loops, fr.loopsDirty
+		if dirty {
+			for i := range loops {
+				loops[i] = 0
+			}
+		}
+		*fr = frame{regs: regs, loops: loops}
+		return fr
+	}
+	return &frame{regs: make([]Value, fi.n)}
+}
+
 func (in *Interp) runSSA(caller *frame, site ssa.Instruction, fn *ssa.Function, args []Value, env []Value, bestEffort bool) Value {
 	fi := in.info(fn)
-	fr := &frame{in: in, caller: caller, fn: fn, site: site, info: fi, bestEffort: bestEffort}
+	fr := in.newFrame(fi)
+	fr.in, fr.caller, fr.fn, fr.site, fr.info, fr.bestEffort = in, caller, fn, site, fi, bestEffort
 	if caller != nil {
 		fr.depth = caller.depth + 1
 		if fr.depth > 2000 {
 			panic(in.abort("unwind", "call depth > 2000 in "+fn.String()))
 		}
 	}
-	fr.regs = make([]Value, fi.n)
 	if len(args) != len(fn.Params) {
 		panic(in.abort("internal", fmt.Sprintf("arg count mismatch calling %s: %d vs %d", fn, len(args), len(fn.Params))))
 	}
@@ -388,7 +406,11 @@ func (in *Interp) runSSA(caller *frame, site ssa.Instruction, fn *ssa.Function, 
 	for fr.block != nil {
 		in.runFrame(fr)
 	}
-	return fr.result
+	res := fr.result
+	fr.result = nil
+	fr.defers = nil
+	fi.free = append(fi.free, fr)
+	return res
 }
 
 func (in *Interp) runFrame(fr *frame) {
@@ -425,10 +447,11 @@ func (in *Interp) runFrame(fr *frame) {
 		if len(blk.Preds) > 1 {
 			// potential loop header: count activations
 			if fr.loops == nil {
-				fr.loops = map[*ssa.BasicBlock]int{}
+				fr.loops = make([]int32, len(fr.fn.Blocks))
 			}
-			fr.loops[blk]++
-			if fr.loops[blk] > in.unwind && !in.inInit {
+			fr.loopsDirty = true
+			fr.loops[blk.Index]++
+			if int(fr.loops[blk.Index]) > in.unwind && !in.inInit {
 				panic(in.abort("unwind", fmt.Sprintf("loop bound %d exceeded in %s block %d", in.unwind, fr.fn, blk.Index)))
 			}
 		}
@@ -579,15 +602,18 @@ func (in *Interp) callDeferred(fr *frame, d *deferred) {
 
 func (in *Interp) runDeferredSSA(caller *frame, site ssa.Instruction, fn *ssa.Function, args []Value, env []Value) {
 	fi := in.info(fn)
-	fr := &frame{in: in, caller: caller, fn: fn, site: site, info: fi, deferredCall: true}
+	fr := in.newFrame(fi)
+	fr.in, fr.caller, fr.fn, fr.site, fr.info, fr.deferredCall = in, caller, fn, site, fi, true
 	fr.depth = caller.depth + 1
-	fr.regs = make([]Value, fi.n)
 	copy(fr.regs, args)
 	copy(fr.regs[len(fn.Params):], env)
 	fr.block = fn.Blocks[0]
 	for fr.block != nil {
 		in.runFrame(fr)
 	}
+	fr.result = nil
+	fr.defers = nil
+	fi.free = append(fi.free, fr)
 }
 
 const (
